@@ -613,6 +613,31 @@ func (c *EvalCtx) evalCall(e *CallE) TV {
 			evalFail("payload: unknown type %s", ExprString(e.Args[1]))
 		}
 		return TV{V: c.eng.ifacePayload(x.V.(*Term), t), T: t}
+	case "val":
+		// val(p): the struct/array value stored at pointer p
+		x := c.eval(e.Args[0])
+		pt, ok := x.T.Underlying().(*types.Pointer)
+		if !ok || !isAggregate(pt.Elem()) {
+			evalFail("val() needs a pointer to a struct or array")
+		}
+		return TV{V: c.cur.LoadObject(pt.Elem(), x.V.(*Term)), T: pt.Elem()}
+	case "box":
+		// box(x): x converted to interface{} (as a map key or an `interface{}` argument would be)
+		x := c.eval(e.Args[0])
+		if x.C != nil || x.T == nil {
+			evalFail("box() needs a typed value")
+		}
+		return TV{V: c.eng.makeIface(c.cur, x.V, x.T), T: types.NewInterfaceType(nil, nil)}
+	case "has":
+		// has(m, k): key k is present in map m
+		m := c.eval(e.Args[0])
+		mt, ok := m.T.Underlying().(*types.Map)
+		if !ok {
+			evalFail("has() needs a map")
+		}
+		k := c.convert(c.eval(e.Args[1]), mt.Key())
+		ms := c.cur.mapState(m.V.(*Term), mt)
+		return TV{V: Select(ms.Dom, c.eng.keyTerm(k.V, mt.Key())), T: types.Typ[types.Bool]}
 	case "forwarded":
 		// forwarded(i, "Method", args...): entry i of the ghost event log is a call of Method with exactly these arguments
 		if len(e.Args) < 2 {
